@@ -1,4 +1,4 @@
-CONSTANTS P = 193 GEN = 125 LOGN = 6 MaxDim = 3
+CONSTANTS P = 193 GEN = 125 LOGN = 6 MaxDim = 2
 INIT Init
 NEXT Next
 INVARIANT Complete
